@@ -75,6 +75,12 @@ Qed.
 Lemma nn_init : NN init.
 Proof. constructor; cbn; lia. Qed.
 
+Lemma nn_init_of c : NN (init_of c).
+Proof.
+  destruct (init_of_shape c) as (o & cu & nw & E & Ho & Hcu & Hnw & _). cbv zeta in E. rewrite E.
+  constructor; flds; assumption.
+Qed.
+
 (** ** The final allocation loop *)
 Lemma has_space_nonneg c st i sz b : has_space c st i sz = Some b -> 0 <= i.
 Proof. unfold has_space. destruct (i <? 0) eqn:E; [discriminate|]. intros _. apply Z.ltb_ge in E. exact E. Qed.
@@ -191,6 +197,12 @@ Qed.
 Lemma ainv_init c : AInv c init.
 Proof. exact I. Qed.
 
+Lemma init_of_idle c : pcs (init_of c) = Idle.
+Proof. destruct (init_of_shape c) as (o & cu & nw & E & _). cbv zeta in E. rewrite E. reflexivity. Qed.
+
+Lemma ainv_init_of c : AInv c (init_of c).
+Proof. unfold AInv. rewrite init_of_idle. exact I. Qed.
+
 Lemma reach_all c es : wfq c -> forall st, Inv st -> Cap c st -> NN st -> AInv c st ->
   Inv (run_evs c st es) /\ Cap c (run_evs c st es) /\ NN (run_evs c st es) /\ AInv c (run_evs c st es).
 Proof.
@@ -203,12 +215,13 @@ Qed.
     1 <= new, every interleaving. *)
 Theorem alloc_fuel_suffices_reach c es :
   wfq c ->
-  let st := run_evs c init es in
+  let st := run_evs c (init_of c) es in
   (forall sz, pcs st = PAlloc sz -> snd (alloc_loop (alloc_fuel st) c st sz) <> -1)
   /\ (forall code idx, pcs st = PDone code idx -> code <> -1).
 Proof.
   intros Hw st.
-  destruct (reach_all c es Hw init inv_init (cap_init c Hw) nn_init (ainv_init c)) as (HI & HC & HN & HA).
+  destruct (reach_all c es Hw (init_of c) (inv_init_of c (proj1 Hw)) (cap_init_of c) (nn_init_of c) (ainv_init_of c))
+    as (HI & HC & HN & HA).
   fold st in HI, HC, HN, HA. split.
   - intros sz Epc. unfold AInv in HA. rewrite Epc in HA.
     destruct Hw as (_ & _ & Hq). apply alloc_ok; [lia|apply HN|exact HA].
@@ -541,4 +554,16 @@ Proof.
     + destruct (detect_frame st r) as (F1 & _). congruence.
   - constructor; [exact I|]. apply IH; auto.
   - constructor; [exact I|]. apply IH; auto.
+Qed.
+
+(** No Put() of a schedule whose upload sizes fit a fresh block (or exceed the
+    block size: rejected at once) ends with the out-of-fuel code: the
+    exemption [code =? -1] of the monitor ([mon_ops], Run/R08Q.v) is never used
+    on the model. *)
+Theorem put_fuel_suffices_all c ops :
+  wfq c -> sizes_ok c ops = true -> Forall not_out_of_fuel (run_ops c (init_of c) ops).
+Proof.
+  intros Hw Hs.
+  apply run_ops_no_fuel; auto using cap_init_of, nn_init_of, init_of_idle.
+  apply inv_init_of, Hw.
 Qed.
